@@ -38,10 +38,15 @@ structure Live where
   src : Nat
   fam : Fam
   inherited : Bool
+  /-- a purge of this peer's paths was requested without handing over this session's counter
+      (what the daemon's `drop_stale_families` / `mark_llgr_stale` / `drop_llgr_stale_families` do) -/
+  purgedWithoutCtr : Bool := false
   deriving DecidableEq, Repr
 
 structure St where
   live : List Live := []
+  /-- sessions that have ended (peer dropped or re-marked stale): their counter is gone -/
+  dead : List (Nat × Fam) := []
   prev : List FamObs := []
 
 def famDests (fams : List FamObs) (f : Fam) : List (Net × List DEntry) :=
@@ -51,7 +56,7 @@ def famDests (fams : List FamObs) (f : Fam) : List (Net × List DEntry) :=
 
 /-- a session starts using its counter -/
 def activate (c : Case) (st : St) (s : Src) (f : Fam) : List Live :=
-  if s.lim.isNone then st.live
+  if s.lim.isNone || st.dead.contains (s.id, f) then st.live
   else if st.live.any (fun l => l.src = s.id ∧ l.fam = f) then st.live
   else
     let others := st.live.filter fun l => !(l.fam = f && addrOf c l.src == some s.addr)
@@ -61,18 +66,19 @@ def activate (c : Case) (st : St) (s : Src) (f : Fam) : List Live :=
 def deactivate (c : Case) (live : List Live) (addr : Nat) (f : Fam) : List Live :=
   live.filter fun l => !(l.fam = f && addrOf c l.src == some addr)
 
+def deadStep (c : Case) (st : St) : Op → List (Nat × Fam)
+  | .drop a f | .restale a f | .restaleLlgr a f =>
+      ((st.live.filter fun l => l.fam = f && addrOf c l.src == some a).map fun l => (l.src, l.fam)) ++ st.dead
+  | _ => st.dead
+
 def liveStep (c : Case) (st : St) : Op → List Live
   | .insert s f .. => activate c st s f
   | .remove s f .. => activate c st s f
-  | .dropStale _ f (some s) => match c.srcs[s]? with
+  | .dropStale a f ctr | .dropLlgr a f ctr | .dropNoLlgr a f ctr =>
+      match ctr.bind (c.srcs[·]?) with
       | some s => activate c st s f
-      | none => st.live
-  | .dropLlgr _ f (some s) => match c.srcs[s]? with
-      | some s => activate c st s f
-      | none => st.live
-  | .dropNoLlgr _ f (some s) => match c.srcs[s]? with
-      | some s => activate c st s f
-      | none => st.live
+      | none => st.live.map fun l =>
+          if l.fam = f && addrOf c l.src == some a then { l with purgedWithoutCtr := true } else l
   | .drop a f => deactivate c st.live a f
   | .restale a f => deactivate c st.live a f
   | .restaleLlgr a f => deactivate c st.live a f
@@ -94,7 +100,10 @@ def firstSome {α} (f : α → Option String) : List α → Option String
     | some s => some s
     | none => firstSome f l
 
-def cls (inherited : Bool) : String := if inherited then "inherited-stale-paths" else "plain"
+def cls (l : Live) : String :=
+  if l.inherited then "inherited-stale-paths"
+  else if l.purgedWithoutCtr then "purge-without-counter"
+  else "plain"
 
 def opName : Op → String
   | .insert .. => "insert" | .remove .. => "remove" | .drop .. => "drop" | .dropStale .. => "drop-stale"
@@ -127,10 +136,10 @@ def checkStep (c : Case) (st : St) (live : List Live) (op : Op) (s : StepObs) : 
       | none => some "unknown-reference"
       | some addr =>
           let v := ctrOf s l.src l.fam
-          if v ≥ HALF then some s!"limit-counter-underflow class={cls l.inherited}"
+          if v ≥ HALF then some s!"limit-counter-underflow class={cls l}"
           else if (s.fams.any fun fo => fo.fam = l.fam) &&
               v ≠ countPrefixes (fromAddr c addr) (famDests s.fams l.fam) then
-            some s!"limit-counter-ne-recount class={cls l.inherited}"
+            some s!"limit-counter-ne-recount class={cls l}"
           else none) live).orElse fun _ =>
   -- the limit is enforced or signalled
   (match op with
@@ -141,7 +150,7 @@ def checkStep (c : Case) (st : St) (live : List Live) (op : Op) (s : StepObs) : 
           let wasKnown := (famDests st.prev fam).any fun d => d.1 = net && d.2.any (fromAddr c src.addr)
           let n := countPrefixes (fun e => fromAddr c src.addr e && !e.filtered) (famDests s.fams fam)
           if !wasKnown && s.res ≠ .limit && n > max then
-            some s!"limit-exceeded-not-signalled class={cls ((live.find? fun l => l.src = src.id ∧ l.fam = fam).any (·.inherited))}"
+            some s!"limit-exceeded-not-signalled class={match live.find? fun l => l.src = src.id ∧ l.fam = fam with | some l => cls l | none => "plain"}"
           else none
    | _ => none)
 
@@ -152,7 +161,7 @@ def checkSteps (c : Case) : Nat → St → List Op → List StepObs → Verdict
       let live := liveStep c st op
       match checkStep c st live op s with
       | some cl => .fail i cl
-      | none => checkSteps c (i + 1) { live := live, prev := s.fams } ops ss
+      | none => checkSteps c (i + 1) { live := live, dead := deadStep c st op, prev := s.fams } ops ss
 
 /-- The C15 reference checker.  A panic is an arithmetic overflow check firing (debug profile). -/
 def check (c : Case) (o : Obs) : Verdict :=
